@@ -292,6 +292,8 @@ def job_gate_run(arg):
     setup = CLIENT_SETUP[est]
     pre, cur = gate_election(n, 2, seed, dup=req["dup"])
     pis = [p / 1000 for p in req["alphas"]]
+    if req.get("fine"):
+        pis = [a * (1 + 2.0 ** -40) for a in pis]
     detail = None
     # every other run re-uses a client object that has just served a request with a far larger minimum (which ended
     # in the not-enough-units error): the gate of THIS request depends on its own n and levels only (seeded change C14_C)
